@@ -23,4 +23,191 @@ theorem two_ne_zero16 : ¬ ((2 : UInt16) = 0) := by decide
 theorem ofInt_one : UInt16.ofInt 1 = 1 := by decide
 theorem ofInt_zero : UInt16.ofInt 0 = 0 := by decide
 
+/-! ### environments -/
+
+theorem get_set_ne (ρ : Env) (x y : String) (v : Val) (h : y ≠ x) : (ρ.set x v).get y = ρ.get y := by
+  induction ρ with
+  | nil => simp [Env.set, Env.get, Ne.symm h]
+  | cons p r ih =>
+    obtain ⟨k, w⟩ := p
+    by_cases hk : k = x
+    · subst hk; simp [Env.set, Env.get, Ne.symm h]
+    · by_cases hy : k = y
+      · subst hy; simp [Env.set, Env.get, hk]
+      · simp [Env.set, Env.get, hk, hy, ih]
+
+theorem get_set_eq (ρ : Env) (x : String) (v : Val) : (ρ.set x v).get x = some v := by
+  induction ρ with
+  | nil => simp [Env.set, Env.get]
+  | cons p r ih =>
+    obtain ⟨k, w⟩ := p
+    by_cases hk : k = x
+    · simp [Env.set, Env.get, hk]
+    · simp [Env.set, Env.get, hk, ih]
+
+theorem set_length_bound (ρ : Env) (x : String) (v w : Val) (h : ρ.get x = some w) : (ρ.set x v).length = ρ.length := by
+  induction ρ with
+  | nil => simp [Env.get] at h
+  | cons p r ih =>
+    obtain ⟨k, u⟩ := p
+    by_cases hk : k = x
+    · simp [Env.set, hk]
+    · simp [Env.get, hk] at h
+      simp [Env.set, hk, ih h]
+
+theorem set_self (ρ : Env) (x : String) (w : Val) (h : ρ.get x = some w) : ρ.set x w = ρ := by
+  induction ρ with
+  | nil => simp [Env.get] at h
+  | cons p r ih =>
+    obtain ⟨k, u⟩ := p
+    by_cases hk : k = x
+    · simp [Env.get, hk] at h; simp [Env.set, hk, h]
+    · simp [Env.get, hk] at h
+      simp [Env.set, hk, ih h]
+
+theorem set_set (ρ : Env) (x : String) (v w : Val) : (ρ.set x v).set x w = ρ.set x w := by
+  induction ρ with
+  | nil => simp [Env.set]
+  | cons p r ih =>
+    obtain ⟨k, u⟩ := p
+    by_cases hk : k = x
+    · simp [Env.set, hk]
+    · simp [Env.set, hk, ih]
+
+theorem set_fresh (ρ : Env) (x : String) (v : Val) (h : ρ.get x = none) : ρ.set x v = ρ ++ [(x, v)] := by
+  induction ρ with
+  | nil => simp [Env.set]
+  | cons p r ih =>
+    obtain ⟨k, u⟩ := p
+    by_cases hk : k = x
+    · simp [Env.get, hk] at h
+    · simp [Env.get, hk] at h
+      simp [Env.set, hk, ih h]
+
+theorem set_append_bound (ρ τ : Env) (x : String) (v w : Val) (h : ρ.get x = some w) : (ρ ++ τ).set x v = ρ.set x v ++ τ := by
+  induction ρ with
+  | nil => simp [Env.get] at h
+  | cons p r ih =>
+    obtain ⟨k, u⟩ := p
+    by_cases hk : k = x
+    · simp [Env.set, hk]
+    · simp [Env.get, hk] at h
+      simp [Env.set, hk, ih h]
+
+/-- leaving the scope of a fresh loop variable after an update of an outer variable -/
+theorem take_set_set (ρ : Env) (x y : String) (u v w : Val) (hy : ρ.get y = none) (hx : ρ.get x = some w) :
+    ((ρ.set y u).set x v).take ρ.length = ρ.set x v := by
+  rw [set_fresh ρ y u hy, set_append_bound ρ _ x v w hx]
+  have := set_length_bound ρ x v w hx
+  rw [← this]; simp
+
+/-! ### loops, generically: one iteration symbolically executed, then a pure fold -/
+
+inductive Step (α : Type) where
+  | next (a : α)
+  | brk (a : α)
+  | ret (a : α) (v : Val)
+  | err (e : Err)
+
+def Step.toRes {α : Type} (mk : α → M) : Step α → Res
+  | .next a => .ok (mk a, .norm)
+  | .brk a => .ok (mk a, .brk)
+  | .ret a v => .ok (mk a, .ret v)
+  | .err e => .error e
+
+/-- the loop as a pure fold: `next a` = ran to the end (or left by `break`) -/
+def foldS {α β : Type} (g : α → β → Step α) : List β → α → Step α
+  | [], a => .next a
+  | b :: r, a =>
+    match g a b with
+    | .next a' => foldS g r a'
+    | .brk a' => .next a'
+    | s => s
+
+/-- A loop of the interpreter is the pure fold `g`, once ONE iteration of its body — symbolically executed on
+the state `mk a` — is shown to be `g a x`. -/
+theorem loopS_foldS {α β : Type} (R : Ro) (body : St) (n : Nat) (bd : Bind) (mk : α → M) (inj : β → Val) (g : α → β → Step α)
+    (h : ∀ a x i, leave n (exec R body { (mk a) with ρ := bindIt bd (mk a).ρ (inj x) i }) = (g a x).toRes mk) :
+    ∀ (items : List β) (i : Nat) (a : α), loopS R body n bd (items.map inj) i (mk a) = (foldS g items a).toRes mk := by
+  intro items
+  induction items with
+  | nil => intro i a; simp [loopS, foldS, Step.toRes]
+  | cons b r ih =>
+    intro i a
+    rw [List.map_cons, loopS, h, foldS]
+    cases hg : g a b with
+    | next a' => simp only [Step.toRes]; exact ih (i + 1) a'
+    | brk a' => simp [Step.toRes]
+    | ret a' v => simp [Step.toRes]
+    | err e => simp [Step.toRes]
+
+/-- `for _, char := range chars { w += uint16(char.Width) }` as a fold: the line's width (uint16, wrapping) -/
+theorem foldS_width : ∀ (l : List Cell) (acc : UInt16),
+    foldS (fun (a : UInt16) (ch : Cell) => Step.next (a + u16 ch.w)) l acc = .next (acc + lineWidth l) := by
+  intro l
+  induction l with
+  | nil => intro acc; simp [foldS, lineWidth]
+  | cons ch r ih => intro acc; simp [foldS, ih, lineWidth, UInt16.add_assoc]
+
+/-- `for _, char := range chars { lineWidth += char.Width }` as a fold (Go int) -/
+theorem foldS_widthInt : ∀ (l : List Cell) (acc : Int),
+    foldS (fun (a : Int) (ch : Cell) => Step.next (a + ch.w)) l acc = .next (acc + lineWidthInt l) := by
+  intro l
+  induction l with
+  | nil => intro acc; simp [foldS, lineWidthInt]
+  | cons ch r ih => intro acc; simp [foldS, ih, lineWidthInt, Int.add_assoc]
+
+/-- one line of `findContainerSize`: the pure step -/
+def sizeStep (maxW maxH : UInt16) (a : UInt16 × UInt16) (line : List Cell) : Step (UInt16 × UInt16) :=
+  if a.2 ≥ maxH then .ret a (.size a.1 a.2)
+  else
+    let lw := lineWidth line
+    let w := if a.1 < lw then lw else a.1
+    .next (if w > maxW then maxW else w, a.2 + 1)
+
+/-- what the fold of `sizeStep` returns: the model's `sizeLoop` (with the `>=` guard), whether it ran to the end or returned early -/
+def stepSize : Step (UInt16 × UInt16) → UInt16 × UInt16
+  | .next a => a
+  | .ret a _ => a
+  | _ => (0, 0)
+
+theorem foldS_sizeStep (maxW maxH : UInt16) : ∀ (lines : List (List Cell)) (w h : UInt16),
+    (foldS (sizeStep maxW maxH) lines (w, h) = .next (sizeLoop true maxW maxH lines w h)) ∨
+    (foldS (sizeStep maxW maxH) lines (w, h) = .ret (sizeLoop true maxW maxH lines w h)
+        (.size (sizeLoop true maxW maxH lines w h).1 (sizeLoop true maxW maxH lines w h).2)) := by
+  intro lines
+  induction lines with
+  | nil => intro w h; simp [foldS, sizeLoop]
+  | cons l r ih =>
+    intro w h
+    by_cases hg : h ≥ maxH
+    · simp [foldS, sizeStep, sizeLoop, hGuard, hg]
+    · simp only [foldS, sizeStep, hg, if_false, sizeLoop, hGuard, if_true]
+      exact ih _ _
+
+def liftStep {α β : Type} (f : α → β) : Step α → Step β
+  | .next a => .next (f a)
+  | .brk a => .brk (f a)
+  | .ret a v => .ret (f a) v
+  | .err e => .err e
+
+/-- the same over the states of a scanner (the scanner value rides along) -/
+theorem foldS_sizeScan (txt : Bool) (maxW maxH : UInt16) : ∀ (lines : List (List Cell)) (sc : Val) (w h : UInt16),
+    ∃ sc', (foldS (fun (a : Val × UInt16 × UInt16) (p : List Cell × List (List Cell)) =>
+              liftStep (fun x => (Val.scanner txt p.2 p.1, x)) (sizeStep maxW maxH a.2 p.1)) (scanPairs lines) (sc, w, h)
+            = .next (sc', sizeLoop true maxW maxH lines w h)) ∨
+           (foldS (fun (a : Val × UInt16 × UInt16) (p : List Cell × List (List Cell)) =>
+              liftStep (fun x => (Val.scanner txt p.2 p.1, x)) (sizeStep maxW maxH a.2 p.1)) (scanPairs lines) (sc, w, h)
+            = .ret (sc', sizeLoop true maxW maxH lines w h)
+                (.size (sizeLoop true maxW maxH lines w h).1 (sizeLoop true maxW maxH lines w h).2)) := by
+  intro lines
+  induction lines with
+  | nil => intro sc w h; exact ⟨sc, by simp [foldS, sizeLoop, scanPairs]⟩
+  | cons l r ih =>
+    intro sc w h
+    by_cases hg : h ≥ maxH
+    · exact ⟨Val.scanner txt r l, by simp [foldS, sizeStep, sizeLoop, hGuard, hg, scanPairs, liftStep]⟩
+    · simp only [foldS, sizeStep, hg, if_false, sizeLoop, hGuard, if_true, scanPairs, liftStep]
+      exact ih _ _ _
+
 end VaxisModel.Lemmas.SurfExec
